@@ -27,7 +27,12 @@ From Verif Require Import Common.Base.
 Inductive wr :=
 | WAppend (v : Z)            (* slice.AppendEmpty() + set marker v            *)
 | WSet (k : nat) (v : Z)     (* if k < Len(): At(k) ... PutInt(marker, v)     *)
-| WRemove (v : Z).           (* slice.RemoveIf(marker == v)                   *)
+| WRemove (v : Z)            (* slice.RemoveIf(marker == v)                   *)
+| WFun (f : list Z -> list Z). (* ANY mutation: an arbitrary function of the content (always reaches a pdata mutator);
+                                 the theorems quantify over every f.  The harness exercises f = rotate (tag 5). *)
+
+(* the instance the correspondence run exercises: EnsureCapacity, then move the first entry to the end *)
+Definition rotate (c : list Z) : list Z := match c with [] => [] | x :: r => r ++ [x] end.
 
 Fixpoint set_nth (k : nat) (v : Z) (c : list Z) : list Z :=
   match c, k with
@@ -41,6 +46,7 @@ Definition apply_wr (w : wr) (c : list Z) : list Z :=
   | WAppend v => c ++ [v]
   | WSet k v => set_nth k v c
   | WRemove v => filter (fun x => negb (Z.eqb x v)) c
+  | WFun f => f c
   end.
 
 (* does the program reach a pdata mutator?  (every mutator starts with state.AssertMutable()) *)
@@ -248,3 +254,29 @@ with pipe_cap_t (p : pipe) : bool :=
   match p with
   | Pipe procs exps => pipeline_cap procs (map node_cap exps)
   end.
+
+(* ---- several deliveries through the SAME fan-out --------------------------------------------------- *)
+(* xConsumer holds nothing but the two consumer slices: ConsumeX keeps no state from one call to the next, every
+   clone is a fresh payload (cloneX = NewX() + CopyTo) and every call has its own caller payload.  A session is
+   therefore a list of deliveries, each with its own cells; its labels start a delivery (possibly while earlier
+   ones are still in progress: concurrent or re-entrant ConsumeX calls) or let delivery d take a step: its next
+   consumer call, or a write by consumer i on the payload it was handed IN delivery d — at any later time, e.g.
+   after further deliveries were made (a consumer that queues / batches the payload it owns). *)
+Inductive slabel :=
+| SDeliver (ro_in : bool) (c0 : list Z)
+| SStep (d : nat) (l : label).
+
+Fixpoint upd_nth {A} (l : list A) (k : nat) (f : A -> A) : list A :=
+  match l, k with
+  | [], _ => []
+  | x :: r, 0 => f x :: r
+  | x :: r, S k' => x :: upd_nth r k' f
+  end.
+
+Definition sstep (f : fan) (ss : list mstate) (sl : slabel) : list mstate :=
+  match sl with
+  | SDeliver ro c0 => ss ++ [init f ro c0]
+  | SStep d l => upd_nth ss d (fun m => mstep (nro f) m l)
+  end.
+
+Definition srun (f : fan) (sls : list slabel) : list mstate := fold_left (sstep f) sls [].
